@@ -102,6 +102,18 @@ func (c *l3Child) call(op string, timeout time.Duration) (vlib.Res, bool) {
 	}
 }
 
+// watchdogLog leaves a trace of every watchdog kill (the retry may hide it from the verdict).
+func watchdogLog(msg string) {
+	dir := os.Getenv("VERIF_DIR")
+	if dir == "" {
+		dir = "/verif"
+	}
+	if f, err := os.OpenFile(filepath.Join(dir, "build", "c12-watchdog.log"), os.O_APPEND|os.O_CREATE|os.O_WRONLY, 0o644); err == nil {
+		fmt.Fprintf(f, "%s pid=%d seed=%s %s\n", time.Now().Format(time.RFC3339), os.Getpid(), strings.Join(os.Args[1:], " "), msg)
+		f.Close()
+	}
+}
+
 // l3Op routes one `l3 …` op to the child.
 func l3Op(f []string, op string) vlib.Res {
 	if os.Getenv("C12_L3_INPROC") != "" {
@@ -119,6 +131,7 @@ func l3Op(f []string, op string) vlib.Res {
 		c.ops = []string{op}
 		r, ok := c.call(op, 40*time.Second)
 		if !ok {
+			watchdogLog(fmt.Sprintf("no result within 40s for %q", op))
 			c.kill()
 			return vlib.Res{Impl: "child-died", Oracle: "FAIL sig=l3/new/harness-child-died"}
 		}
@@ -136,6 +149,7 @@ func l3Op(f []string, op string) vlib.Res {
 		if !ok {
 			// hung or died: kill it, then replay the whole case once in a fresh child before flagging
 			fam, mode, ops := child.fam, child.mode, child.ops
+			watchdogLog(fmt.Sprintf("no result within %s for %q of case %q", limit, op, ops[0]))
 			child.kill()
 			child = nil
 			if c, err := spawnChild(); err == nil {
